@@ -180,6 +180,9 @@ fn open_flags(k: u64) -> (OpenFlags, i32) {
         // the other flag class for which the kernel consults `mode`: an unnamed file in the directory `path`
         4 => (OpenFlags::O_TMPFILE | OpenFlags::O_RDWR, libc::O_TMPFILE | libc::O_RDWR),
         5 => (OpenFlags::O_DIRECTORY | OpenFlags::O_RDONLY, libc::O_DIRECTORY | libc::O_RDONLY),
+        // flags that only show in the properties of the new descriptor
+        7 => (OpenFlags::O_RDONLY | OpenFlags::O_CLOEXEC | OpenFlags::O_NONBLOCK, libc::O_RDONLY | libc::O_CLOEXEC | libc::O_NONBLOCK),
+        8 => (OpenFlags::O_WRONLY | OpenFlags::O_APPEND, libc::O_WRONLY | libc::O_APPEND),
         _ => (OpenFlags::O_NOFOLLOW | OpenFlags::O_RDONLY, libc::O_NOFOLLOW | libc::O_RDONLY),
     }
 }
@@ -313,7 +316,7 @@ fn build(op: &Value, w: &World, u: u64, link: bool, keep: &mut Keep) -> Built {
             }
             "socket" => {
                 let (dom, ty) = if g("kind") == 0 { (AddressFamily::AF_UNIX, SocketType::SOCK_STREAM) } else { (AddressFamily::AF_INET, SocketType::SOCK_DGRAM) };
-                IoUringSubmissionQueueEntry::new_socket(dom, SocketOptions::new(ty, SocketFlags::SOCK_CLOEXEC), g("proto") as u32, u, fl)
+                IoUringSubmissionQueueEntry::new_socket(dom, SocketOptions::new(ty, sock_flags(g("sfl")).0), g("proto") as u32, u, fl)
             }
             "timeout" => {
                 // abs 0: relative 1 ms; 1: absolute, 10 s after boot (long past on CLOCK_MONOTONIC); 2: absolute, 40 ms from
@@ -353,7 +356,19 @@ fn fd_facts(fd: i32) -> Value {
     if unsafe { libc::fstat(fd, &mut st) } != 0 {
         return json!({"fstat": -errno()});
     }
-    json!({"mode": st.st_mode, "size": st.st_size, "nlink": st.st_nlink, "accmode": unsafe { libc::fcntl(fd, libc::F_GETFL) } & (libc::O_ACCMODE | libc::O_APPEND | libc::O_DIRECTORY | libc::O_NOFOLLOW)})
+    json!({"mode": st.st_mode, "size": st.st_size, "nlink": st.st_nlink,
+        "accmode": unsafe { libc::fcntl(fd, libc::F_GETFL) } & (libc::O_ACCMODE | libc::O_APPEND | libc::O_NONBLOCK | libc::O_DIRECTORY | libc::O_NOFOLLOW),
+        "cloexec": unsafe { libc::fcntl(fd, libc::F_GETFD) } & libc::FD_CLOEXEC != 0})
+}
+
+/// the four flag combinations socket() / accept4() take: (wrapper's, libc's)
+fn sock_flags(k: u64) -> (SocketFlags, i32) {
+    match k % 4 {
+        0 => (SocketFlags::SOCK_CLOEXEC, libc::SOCK_CLOEXEC),
+        1 => (SocketFlags::SOCK_NONBLOCK, libc::SOCK_NONBLOCK),
+        2 => (SocketFlags::SOCK_CLOEXEC | SocketFlags::SOCK_NONBLOCK, libc::SOCK_CLOEXEC | libc::SOCK_NONBLOCK),
+        _ => (SocketFlags::empty(), 0),
+    }
 }
 
 /// what kind of socket a descriptor is (and whether it is close-on-exec / non-blocking)
@@ -426,7 +441,7 @@ fn direct(op: &Value, w: &World) -> (i64, Value) {
             "renameat" => (ret(i64::from(libc::renameat2(dfd, cstr(NAMES[g("name") as usize]).as_ptr(), dirsel("dir2"), cstr(NAMES[g("name2") as usize]).as_ptr(), g("rf") as u32))), Value::Null),
             "socket" => {
                 let (dom, ty) = if g("kind") == 0 { (libc::AF_UNIX, libc::SOCK_STREAM) } else { (libc::AF_INET, libc::SOCK_DGRAM) };
-                let r = ret(i64::from(libc::socket(dom, ty | libc::SOCK_CLOEXEC, g("proto") as i32)));
+                let r = ret(i64::from(libc::socket(dom, ty | sock_flags(g("sfl")).1, g("proto") as i32)));
                 (r, if r >= 0 { sock_facts(r as i32) } else { Value::Null })
             }
             "timeout" => {
@@ -477,15 +492,26 @@ fn param_flags(bits: u32) -> IoUringParamFlags {
     f
 }
 
-fn run(batches: &str, root: &str, entries: u32, flagbits: u32, out: &mut Out) {
+fn run(batches: &str, root: &str, entries: u32, flagbits: u32, lowfd: i32, out: &mut Out) {
     // the working directory: a third place with one file of its own, used read-only through dir_fd = None
     std::fs::create_dir_all(format!("{root}/C")).unwrap();
     std::fs::write(format!("{root}/C/cw"), b"cwd file").unwrap();
     std::env::set_current_dir(format!("{root}/C")).unwrap();
     unsafe { libc::umask(0o027) }; // creation modes are observable through the mask: 0644 -> 0640, 0755 -> 0750, 0600 stays
+    // lowfd 0 / 2: world A's directory is opened AS descriptor 0 / 2 (closed first), so that every path-taking
+    // entry carries that number as its dir_fd
+    if lowfd >= 0 {
+        unsafe { libc::close(lowfd) };
+    }
     let mut a = World::open(root, "A");
+    if lowfd >= 0 {
+        assert_eq!(a.dir, lowfd, "world A's directory did not get descriptor {lowfd}");
+    }
     let mut b = World::open(root, "B");
     a.reset();
+    if lowfd >= 0 {
+        assert_eq!(a.dir, lowfd, "world A's directory did not keep descriptor {lowfd}");
+    }
     b.reset();
     let sqpoll = flagbits & IoUringParamFlags::IORING_SETUP_SQPOLL.bits() != 0;
     // a polling thread goes idle after 50 ms (sq_thread_idle): batches that sleep first find it asleep
@@ -773,6 +799,11 @@ struct SockWorld {
     aname: [Vec<u8>; 4],
     tag: String,
     pending_on: [std::collections::VecDeque<usize>; 4],
+    /// a TCP listener on 127.0.0.1 (ephemeral port) and the clients connected to it (directly) but not yet accepted
+    ilisten: i32,
+    iport: u16,
+    iclients: std::collections::VecDeque<(i32, u16)>,
+    iaccepted: Vec<i32>,
 }
 
 fn sockaddr_of(sun_path: &[u8]) -> (libc::sockaddr_un, u32) {
@@ -843,11 +874,58 @@ impl SockWorld {
             let (ca, clen) = sockaddr_of(&[b"\0".as_slice(), tag.as_bytes(), b"-client\0!"].concat());
             assert_eq!(0, libc::bind(c2, std::ptr::addr_of!(ca).cast(), clen));
             SockWorld { path, listener, client: [-1, c1, c2], server_side: [-1; 3], pending: Default::default(), file, file_ino: ino_of(file), dgram_tx, dgram_rx,
-                alisten, aname, tag, pending_on: Default::default() }
+                alisten, aname, tag, pending_on: Default::default(), ilisten: -1, iport: 0, iclients: Default::default(), iaccepted: Vec::new() }
         }
+    }
+    /// TCP listener on the loopback; false if the sandbox has none
+    fn inet_listen(&mut self) -> bool {
+        unsafe {
+            let l = libc::socket(libc::AF_INET, libc::SOCK_STREAM | libc::SOCK_CLOEXEC, 0);
+            let mut sa: libc::sockaddr_in = std::mem::zeroed();
+            sa.sin_family = libc::AF_INET as u16;
+            sa.sin_addr.s_addr = u32::from_ne_bytes([127, 0, 0, 1]);
+            if l < 0 || libc::bind(l, std::ptr::addr_of!(sa).cast(), 16) != 0 || libc::listen(l, 8) != 0 {
+                return false;
+            }
+            let mut len: u32 = 16;
+            libc::getsockname(l, std::ptr::addr_of_mut!(sa).cast(), &mut len);
+            self.ilisten = l;
+            self.iport = u16::from_be(sa.sin_port);
+            true
+        }
+    }
+    /// a client connects directly; its local port is what accept must report as the peer's
+    fn inet_connect(&mut self) -> bool {
+        unsafe {
+            let c = libc::socket(libc::AF_INET, libc::SOCK_STREAM | libc::SOCK_CLOEXEC, 0);
+            let mut sa: libc::sockaddr_in = std::mem::zeroed();
+            sa.sin_family = libc::AF_INET as u16;
+            sa.sin_addr.s_addr = u32::from_ne_bytes([127, 0, 0, 1]);
+            sa.sin_port = self.iport.to_be();
+            if libc::connect(c, std::ptr::addr_of!(sa).cast(), 16) != 0 {
+                return false;
+            }
+            let mut len: u32 = 16;
+            libc::getsockname(c, std::ptr::addr_of_mut!(sa).cast(), &mut len);
+            self.iclients.push_back((c, u16::from_be(sa.sin_port)));
+            true
+        }
+    }
+    /// what accept reported about an inet peer: length, family, whether it is the oldest waiting client
+    fn inet_peer(&mut self, fd: i32, peer: &[u8], len: u64) -> Value {
+        let (c, port) = self.iclients.pop_front().unwrap_or((-1, 0));
+        self.iaccepted.push(fd);
+        self.iaccepted.push(c);
+        json!({"addrlen": len, "family": u16::from_ne_bytes([peer[0], peer[1]]), "peer_is_the_client": u16::from_be_bytes([peer[2], peer[3]]) == port,
+            "peer_addr": [peer[4], peer[5], peer[6], peer[7]], "facts": sock_facts(fd)})
     }
     fn close_all(&mut self) {
         unsafe {
+            for fd in self.iaccepted.drain(..).chain(self.iclients.drain(..).map(|c| c.0)).chain(std::iter::once(self.ilisten)) {
+                if fd >= 0 {
+                    libc::close(fd);
+                }
+            }
             for fd in [self.listener, self.client[1], self.client[2], self.server_side[1], self.server_side[2], self.file, self.dgram_tx, self.dgram_rx,
                        self.alisten[1], self.alisten[2], self.alisten[3]] {
                 if fd >= 0 {
@@ -925,7 +1003,9 @@ fn sock_ring(ring: &mut IoUring, w: &mut SockWorld, step: &Value, u: u64, lost_i
         match kind {
             "connect" => IoUringSubmissionQueueEntry::new_connect_unix(Fd::try_new(w.client[c]).unwrap(), &arg, u, fl),
             "accept" => IoUringSubmissionQueueEntry::new_accept_unix(Fd::try_new(lfd).unwrap(), peer.as_mut_ptr().cast(), &mut peer_len,
-                if u % 2 == 0 { SocketFlags::SOCK_CLOEXEC } else { SocketFlags::SOCK_NONBLOCK }, u, fl),
+                sock_flags(u).0, u, fl),
+            // inet listener: ["iaccept"]; the client connected directly
+            "iaccept" => IoUringSubmissionQueueEntry::new_accept_inet(Fd::try_new(w.ilisten).unwrap(), peer.as_mut_ptr().cast(), &mut peer_len, sock_flags(c as u64).0, u, fl),
             "send" | "sendfd" => IoUringSubmissionQueueEntry::new_sendmsg(Fd::try_new(w.client[c]).unwrap(), &guard, 0, u, fl),
             // a send flag with an observable effect: MSG_DONTWAIT on a datagram socket whose receiver's queue is full
             "dsend" => IoUringSubmissionQueueEntry::new_sendmsg(Fd::try_new(w.dgram_tx).unwrap(), &guard, libc::MSG_DONTWAIT, u, fl),
@@ -985,6 +1065,7 @@ fn sock_ring(ring: &mut IoUring, w: &mut SockWorld, step: &Value, u: u64, lost_i
             let (nf, same) = w.received_fds(&ctrl, rhdr.msg_controllen);
             json!({"data": String::from_utf8_lossy(&rbuf[..(res as usize).min(32)]), "fds": nf, "same_file": same})
         }
+        "iaccept" if res >= 0 => w.inet_peer(res as i32, &peer, peer_len),
         "connect" => {
             if res == 0 {
                 w.pending_on[lsel].push_back(c);
@@ -1017,11 +1098,22 @@ fn sock_direct(w: &mut SockWorld, step: &Value, u: u64) -> (i64, Value) {
                 let mut len: u32 = if u % 3 == 0 { 10 } else { 64 };
                 let l = c; // ["accept", listener]
                 let lfd = if l > 0 { w.alisten[l] } else { w.listener };
-                let r = ret(i64::from(libc::accept4(lfd, peer.as_mut_ptr().cast(), &mut len, if u % 2 == 0 { libc::SOCK_CLOEXEC } else { libc::SOCK_NONBLOCK })));
+                let r = ret(i64::from(libc::accept4(lfd, peer.as_mut_ptr().cast(), &mut len, sock_flags(u).1)));
                 if r >= 0 {
                     w.server_side[w.pending_on[l].pop_front().unwrap_or(0)] = r as i32;
                     (r, json!({"addrlen": len, "family": u16::from_ne_bytes([peer[0], peer[1]]), "facts": sock_facts(r as i32),
                         "peer": String::from_utf8_lossy(&peer[2..64]).trim_end_matches('\0').replace(&w.tag, "?")}))
+                } else {
+                    (r, Value::Null)
+                }
+            }
+            "iaccept" => {
+                let mut peer = [0u8; 112];
+                let mut len: u32 = if u % 3 == 0 { 10 } else { 64 };
+                let r = ret(i64::from(libc::accept4(w.ilisten, peer.as_mut_ptr().cast(), &mut len, sock_flags(c as u64).1)));
+                if r >= 0 {
+                    let p = w.inet_peer(r as i32, &peer, u64::from(len));
+                    (r, p)
                 } else {
                     (r, Value::Null)
                 }
@@ -1095,10 +1187,23 @@ fn run_sock(scripts: &str, root: &str, entries: u32, flagbits: u32, out: &mut Ou
         let mut b = SockWorld::new(root, "B", run);
         for (k, step) in sc["steps"].as_array().unwrap().iter().enumerate() {
             u += 1;
+            if step[0] == "iconnect" {
+                // not an operation of the ring: a TCP client connects to each world's loopback listener
+                if a.ilisten < 0 && !(a.inet_listen() && b.inet_listen()) {
+                    out.ev(&json!({"ev":"no_loopback"}));
+                    break;
+                }
+                if !(a.inet_connect() && b.inet_connect()) {
+                    out.ev(&json!({"ev":"no_loopback"}));
+                    break;
+                }
+                continue;
+            }
             let (cqes, pa, got_slot, to_submit, enter, panicked) = sock_ring(&mut ring, &mut a, step, u, &mut lost);
             let (rb, pb) = sock_direct(&mut b, step, u);
             let op = match step[0].as_str().unwrap() {
                 "send" | "sendfd" | "dsend" => "sendmsg",
+                "iaccept" => "accept",
                 "recv" | "peek" => "recvmsg",
                 x => x,
             };
@@ -1159,7 +1264,8 @@ fn main() {
         "run" => {
             // the driver's own bookkeeping can fail once the code under test has gone wrong badly enough
             // (e.g. descriptors leak until EMFILE): keep what was recorded and say so
-            let r = guarded(|| run(&a[2], &a[3], a[4].parse().unwrap(), a[5].parse().unwrap(), &mut out));
+            let lowfd = a.get(6).and_then(|x| x.parse().ok()).unwrap_or(-1);
+            let r = guarded(|| run(&a[2], &a[3], a[4].parse().unwrap(), a[5].parse().unwrap(), lowfd, &mut out));
             if let Err(m) = r {
                 out.ev(&json!({"ev":"aborted","why":m}));
             }
